@@ -290,6 +290,28 @@ func (sc flushScenario) build() *flushRun {
 	return r
 }
 
+// modify applies a few insertions / deletions to the tree (healthy store) and keeps the model in step.
+func (r *flushRun) modify(rng *rand.Rand, n int) {
+	r.st.mu.Lock()
+	r.st.free = true
+	r.st.mu.Unlock()
+	r.gate.active = false
+	for i := 0; i < n; i++ {
+		k := 1 + rng.Intn(r.sc.nkeys)
+		if old, ok := r.model[k]; ok && rng.Intn(3) == 0 {
+			if res, _ := guard(func() error { return r.m.Delete(ctx, r.kc.Key(k), old) }); res == "ok" {
+				delete(r.model, k)
+			}
+			continue
+		}
+		v := 4 + rng.Intn(3)
+		if res, _ := guard(func() error { return r.m.Insert(ctx, r.kc.Key(k), v) }); res == "ok" {
+			r.model[k] = v
+		}
+	}
+	r.add(flushEvent{Op: "mod"})
+}
+
 func (r *flushRun) add(e flushEvent) {
 	r.st.mu.Lock()
 	e.ID = r.sc.id
@@ -512,6 +534,10 @@ func runSchedule(sc flushScenario, sched []string, out *json.Encoder, rng *rand.
 	var res string
 	enabled, res = r.attempt(sched, 1, sc.kind == "big", rng)
 	for a := 2; a <= 3 && res == "err"; a++ {
+		// between a failed attempt and the retry the tree is sometimes modified again (the retry must then persist the current contents)
+		if rng.Intn(2) == 0 {
+			r.modify(rng, 1+rng.Intn(2))
+		}
 		// retry: the second attempt fails one more write at random, the third runs on a healthy store
 		r.add(flushEvent{Op: "retry", Attempt: a})
 		if a == 2 && rng.Intn(2) == 0 {
